@@ -541,3 +541,13 @@ B("C11.bounds_commute_with_scale", ["C11", "C16"], FRAG, "bounded_bounds_commute
   "bounds(scale(f, s)) = scale(bounds(f), s), so enclosure decisions made after scaling do not depend on the scale "
   "(Text is excluded: known finding C11.text_bounds_unscaled_width)",
   "125 coordinate triples x 7 scales x 6 fragment kinds")
+
+B("C14.arrowheads", ["C14"], FB, "bounded_arrowheads", "rows of > < ^ v V in ASCII_PROPERTIES through FragmentBuffer::from(Span) / merge_fragment_spans",
+  "one filled triangle; tip on the axis of the adjoining line, beyond its end, at the arrow character's cell; base straddles the axis",
+  "8 directions x head variants (v, V) x line lengths 1..4 x 3 offsets = 132 diagrams (tables behind once_cell::Lazy)", file="map/ascii_map.rs")
+B("C14.bullets", ["C14"], FB, "bounded_bullets", "rows of * o O in ASCII_PROPERTIES + Line::merge_circle through merge_fragment_spans",
+  "exactly one marker line, marker kind filled / open / big open, marked end = centre of the bullet's cell, no circle or text left over",
+  "3 bullets x 4 line directions x lengths 2..4 x 2 offsets = 72 diagrams", file="map/ascii_map.rs")
+B("C14.rounded_corners", ["C14", "C05"], FB, "bounded_rounded_corners", "rows of . , ' ` in ASCII_PROPERTIES + Arc::center",
+  "four arcs; every arc end coincides with an end of an adjoining line; the arc's centre lies on the inner side of the outline",
+  "2 corner styles x widths 1..8 x heights 1..5 x 2 offsets = 160 outlines with a stub attached", file="map/ascii_map.rs")
